@@ -660,11 +660,11 @@ def main(tier, replay=None):
     if len(chk.broken) > 20:
         chk.broken = chk.broken[:20] + [{"what": "... %d more" % (len(chk.broken) - 20), "detail": ""}]
     chk.cov["rule"] = ("values: structured integers (0, +-1, powers of 10 and 2 +-1, limbs from {0,1,2^63,2^64-1,random}, up to 5 limbs), canonical "
-                       "rationals incl. denominator 1 and numerator 0, residues of 28 ring types x moduli up to maxCardinality, all elements of "
-                       "small GF(q), ruint/rint K=6..9,12 dec and hex, polynomials of degree <= 12 over 8 rings x 6 indeterminate names; each written, "
+                       "rationals incl. denominator 1 and numerator 0, residues of %d ring types x moduli up to maxCardinality, all elements of "
+                       "small GF(q), ruint/rint K=6..12 dec and hex (type min/max and maximal digit counts), Integer under hex/oct, polynomials of degree <= 12 over 8 rings x 6 indeterminate names; each written, "
                        "followed by one of %d tails (blanks, '/', sign, digit, letters, end of stream) and read back through every call form; "
                        "plus adversarial texts over ' \\t\\n+-/0-9x' and sequences of 1-5 values with separators.  non-trivial = a value of two or more "
-                       "digits or a text longer than 2 characters; distinct = the input line" % len(TAILS_ANY))
+                       "digits or a text longer than 2 characters; distinct = the input line" % (len(RINGS), len(TAILS_ANY)))
     chk.cov["traces_validated_against_impl"] = ncorr
     chk.cov["distribution_by_kind"] = dist
     chk.cov["rings"] = sorted(RINGS)
